@@ -1,4 +1,5 @@
 import KafVerif.Model.MetaKeys
+import KafVerif.Gen.C22LogInit
 /-!
 C22 — Different topics never share storage or metadata keys.
 
@@ -15,6 +16,12 @@ offset — no bound anywhere):
 * `topics_disjoint`       t ≠ t' → additionally the per-topic keys and the delete prefixes are separate
 * `old_rule_aliases`      witness: the pre-fix rule (`name != ""`) accepts `a/../orders`, `x/0`,
                           `x/partitions/0` … which alias `orders` / partition 0 of `x`
+* `loginit_format_injective`  every key expression `topic ++ [c] ++ %d` with a separator byte `c` outside the
+                          legal topic alphabet is injective on accepted names × all partitions
+* `loginit_src_injective` the singleflight key of `getPartitionLog` AS REGENERATED FROM THE SOURCE
+                          (`Gen/C22LogInit.lean`) is such an expression at its single call site, hence injective
+* `loginit_nosep_collides` witness: the separator-less key (`fmt.Sprint(topic, partition)`, `"%s%d"`) maps
+                          (`t1`,0) and (`t`,10) to the same string
 -/
 namespace KafVerif.MetaKeys
 
@@ -444,8 +451,8 @@ theorem sep_prefix {c : Char} {t t' : List Char} {p' : Int} (ht : c ∉ t) (ht' 
 
 /-- **C22 (partitions).** For accepted names and `(t,p) ≠ (t',p')`, under any namespace and for any
 base offsets: no S3 object key is shared, the list prefix of `(t,p)` covers no object of `(t',p')`,
-the segment-cache keys differ, no partition-level etcd key is shared, the in-memory offset keys and
-the lease resource ids differ. -/
+the segment-cache keys differ, no partition-level etcd key is shared, the in-memory offset keys, the
+lease resource ids and the singleflight keys of `getPartitionLog` (one shared `*PartitionLog` per key) differ. -/
 theorem _root_.KafVerif.C22.keys_injective (ns t t' : List Char) (p p' b b' : Int)
     (ha : accepted t = true) (ha' : accepted t' = true) (hne : (t, p) ≠ (t', p')) :
     (∀ k ∈ s3Keys ns t p b, ∀ k' ∈ s3Keys ns t' p' b', k ≠ k') ∧
@@ -453,11 +460,12 @@ theorem _root_.KafVerif.C22.keys_injective (ns t t' : List Char) (p p' b b' : In
     cacheKey ns t p b ≠ cacheKey ns t' p' b' ∧
     (∀ k ∈ etcdPartKeys t p, ∀ k' ∈ etcdPartKeys t' p', k ≠ k') ∧
     partitionKey t p ≠ partitionKey t' p' ∧
-    resourceID t p ≠ resourceID t' p' := by
+    resourceID t p ≠ resourceID t' p' ∧
+    logInitKey t p ≠ logInitKey t' p' := by
   obtain ⟨ht, hc, _⟩ := KafVerif.C22.accepted_plain ha
   obtain ⟨ht', hc', _⟩ := KafVerif.C22.accepted_plain ha'
   have hne' : ¬ (t = t' ∧ p = p') := fun h => hne (by rw [h.1, h.2])
-  refine ⟨?_, ?_, ?_, ?_, ?_, ?_⟩
+  refine ⟨?_, ?_, ?_, ?_, ?_, ?_, ?_⟩
   · intro k hk k' hk' h
     simp only [s3Keys, List.mem_cons, List.not_mem_nil, or_false] at hk hk'
     have key : ∀ f f', Plain f → Plain f' →
@@ -489,6 +497,7 @@ theorem _root_.KafVerif.C22.keys_injective (ns t t' : List Char) (p p' b b' : In
     have hk1' := partKeys_sub hk'
     exact hne' ⟨etcd_same_topic ht.2.2.2 ht'.2.2.2 hk1 hk1' h, etcd_same_partition ht.2.2.2 ht'.2.2.2 hk hk' h⟩
   · intro h; exact hne' (sep2_inj hc hc' (by decide) (by decide) h)
+  · intro h; exact hne' (sep2_inj ht.2.2.2 ht'.2.2.2 (by decide) (by decide) h)
   · intro h; exact hne' (sep2_inj ht.2.2.2 ht'.2.2.2 (by decide) (by decide) h)
 
 /-- **C22 (topics).** For two different accepted names, whatever the partitions: no S3 key, no
@@ -545,5 +554,64 @@ theorem _root_.KafVerif.C22.old_rule_aliases :
   · exact ⟨str "0/segment-00000000000000000000.kfs", by decide⟩
   · exact ⟨str "partitions/0/config", by decide⟩
   · exact ⟨str "1:0", by decide⟩
+
+/-! ### the singleflight key of `getPartitionLog`, as regenerated from the source -/
+
+theorem legal_of_digit_or_minus {c : Char} (h : legalChar c = false) : c.isDigit = false ∧ c ≠ '-' := by
+  constructor
+  · cases hd : c.isDigit with
+    | false => rfl
+    | true =>
+      have h1 : '0' ≤ c ∧ c ≤ '9' := by
+        simp only [Char.isDigit, Bool.and_eq_true, decide_eq_true_eq] at hd
+        exact ⟨by simpa [Char.le_def] using hd.1, by simpa [Char.le_def] using hd.2⟩
+      simp [legalChar, h1.1, h1.2] at h
+  · intro e; subst e; simp [legalChar] at h
+
+theorem fmtKey_safe {f : List Piece} (hf : formatSafe f = true) :
+    ∃ c, legalChar c = false ∧ ∀ t p, fmtKey f t p = t ++ c :: intStr p := by
+  match f, hf with
+  | [.topic, .lit [c], .part], hf =>
+    refine ⟨c, by simpa [formatSafe] using hf, ?_⟩
+    intro t p; simp [fmtKey]
+
+/-- **C22 (singleflight key, any safe format).** A key expression `topic ++ [c] ++ %d(partition)` whose
+separator byte `c` is outside the legal topic alphabet (so in particular not a digit and not `-`) maps
+different (accepted topic, partition) pairs to different strings — for ALL partitions (negative too). -/
+theorem _root_.KafVerif.C22.loginit_format_injective (f : List Piece) (hf : formatSafe f = true)
+    (t t' : List Char) (p p' : Int) (ha : accepted t = true) (ha' : accepted t' = true)
+    (h : fmtKey f t p = fmtKey f t' p') : t = t' ∧ p = p' := by
+  obtain ⟨c, hc, hk⟩ := fmtKey_safe hf
+  have hd := legal_of_digit_or_minus hc
+  have hn : ∀ {s : List Char}, accepted s = true → c ∉ s := fun hs hm => by
+    have := accepted_legal hs c hm; simp [hc] at this
+  rw [hk, hk] at h
+  exact sep2_inj (hn ha) (hn ha') hd.1 hd.2 h
+
+example : formatSafe logInitFormat = true ∧ formatSafe [.topic, .lit [':'], .part] = true ∧
+    fmtKey logInitFormat (str "t1") 0 = str "t1/0" ∧ logInitKey (str "t") 10 = fmtKey logInitFormat (str "t") 10 := by decide
+
+/-- **C22 (singleflight key, the current source).** `getPartitionLog` has exactly one
+`logInit.Do(key, …)` call and its key expression — regenerated from cmd/broker/main.go by go/ast on every
+run — is a safe format; so two requests share an initialisation (and the resulting `*PartitionLog`) only
+when they name the same accepted topic and the same partition. -/
+theorem _root_.KafVerif.C22.loginit_src_injective :
+    ∃ f, KafVerif.Gen.C22.logInitSites = [f] ∧
+      ∀ (t t' : List Char) (p p' : Int), accepted t = true → accepted t' = true →
+        fmtKey f t p = fmtKey f t' p' → t = t' ∧ p = p' := by
+  have hs : (match KafVerif.Gen.C22.logInitSites with | [f] => formatSafe f | _ => false) = true := by decide
+  match hm : KafVerif.Gen.C22.logInitSites, hs with
+  | [f], hs => exact ⟨f, rfl, fun t t' p p' ha ha' h => KafVerif.C22.loginit_format_injective f hs t t' p p' ha ha' h⟩
+
+example : accepted (str "t1") = true ∧ accepted (str "t") = true ∧ ((str "t1", (0 : Int)) ≠ (str "t", 10)) := by decide
+
+/-- **C22 (why the separator matters).** Without it (`fmt.Sprint(topic, partition)`, `"%s%d"`) the accepted
+names `t1` and `t` collide: (`t1`, 0) and (`t`, 10) get the same key `t10`, and the format is not safe. -/
+theorem _root_.KafVerif.C22.loginit_nosep_collides :
+    accepted (str "t1") = true ∧ accepted (str "t") = true ∧
+    fmtKey [.topic, .part] (str "t1") 0 = fmtKey [.topic, .part] (str "t") 10 ∧
+    fmtKey [.topic, .part] (str "logs2") 3 = fmtKey [.topic, .part] (str "logs") 23 ∧
+    formatSafe [.topic, .part] = false ∧ formatSafe [.topic, .lit ['-'], .part] = false ∧
+    formatSafe [.topic, .lit ['1'], .part] = false := by decide
 
 end KafVerif.MetaKeys
